@@ -27,6 +27,9 @@ type c35In struct {
 	MTU   int        `json:"mtu"`
 	AUs   [][]c34NAL `json:"aus"`           // one Payload call per access unit
 	Raw   []string   `json:"raw,omitempty"` // when set: the RTP payloads themselves (hex), AUs unused
+	// Reuse: packets reach WriteRTP out of one receive buffer that is overwritten
+	// when the call has returned (mediafeed_util.go)
+	Reuse bool `json:"reuse,omitempty"`
 }
 
 // m1Compress describes bytes as pieces, turning arithmetic runs into patterns.
@@ -226,12 +229,13 @@ func c35Run(in c35In) (V, Verdict) {
 	write := func(p []byte) error {
 		return nil
 	}
+	feeder := &mfFeeder{reuse: in.Reuse}
 	if in.H265 {
 		w := h265writer.NewWith(&buf)
-		write = func(p []byte) error { return w.WriteRTP(&rtp.Packet{Payload: p}) }
+		write = func(p []byte) error { return feeder.feed(w.WriteRTP, rtp.Header{Version: 2}, p) }
 	} else {
 		w := h264writer.NewWith(&buf)
-		write = func(p []byte) error { return w.WriteRTP(&rtp.Packet{Payload: p}) }
+		write = func(p []byte) error { return feeder.feed(w.WriteRTP, rtp.Header{Version: 2}, p) }
 	}
 	nerr := 0
 	for i, p := range payloads {
@@ -280,8 +284,51 @@ func c35Run(in c35In) (V, Verdict) {
 			class += "/" + k
 		}
 	}
+	// units ending in 0x00 that the reader has to hand back whole: behind each
+	// the writer puts a 4-byte start code (tz), or the stream ends (tz-last)
+	tzMid, tzLast := false, false
+	for i, e := range want {
+		if e.Unit[len(e.Unit)-1] == 0 {
+			if i == len(want)-1 {
+				tzLast = true
+			} else {
+				tzMid = true
+			}
+		}
+	}
+	if tzMid {
+		class += "/tz"
+	}
+	if tzLast {
+		class += "/tz-last"
+	}
 	if c35Same(got, c35Units(want)) {
 		return obs, Pass(class, kprop >= 0 && len(want) >= 2)
+	}
+	// the right units, but one came back shorter by zero bytes it ended in: the
+	// reader took more than the start code's three zeros
+	if len(got) == len(want) && len(got) > 0 {
+		short := -1
+		for i := range got {
+			w := want[i].Unit
+			if bytes.Equal(got[i].Data, w) {
+				continue
+			}
+			if len(got[i].Data) < len(w) && bytes.Equal(got[i].Data, w[:len(got[i].Data)]) &&
+				len(bytes.TrimRight(w[len(got[i].Data):], "\x00")) == 0 {
+				if short < 0 {
+					short = i
+				}
+				continue
+			}
+			short = -1
+			break
+		}
+		if short >= 0 {
+			return obs, Fail("unit-read-back-without-its-trailing-zero-bytes",
+				fmt.Sprintf("%s mtu %d: unit %d of %d from the first keyframe has %d bytes (last %#02x), read back %d bytes",
+					codec, in.MTU, short, len(want), len(want[short].Unit), want[short].Unit[len(want[short].Unit)-1], len(got[short].Data)))
+		}
 	}
 	// not the property's output: is it exactly one of the recorded deviations?
 	gdev := -1
@@ -386,7 +433,37 @@ func c35Size(r *Rand) int {
 	return r.Range(4, 30)
 }
 
+// with some probability the unit gets one or more trailing 0x00 bytes (the
+// property does not exclude them: cabac_zero_words, zero-padded slice data;
+// C34's own domain does).  One or two zeros keep the unit free of 00 00 00.
+func c35TrailZeros(r *Rand, n c34NAL, num, den int) c34NAL {
+	if !r.Chance(num, den) {
+		return n
+	}
+	k := Pick(r, []int{1, 1, 1, 2, 2, 3, 4, 7})
+	out := c34NAL{Four: n.Four, Parts: append(append([]m1Pay{}, n.Parts...), m1Lit(make([]byte, k)))}
+	return out
+}
+
 func c35Gen(r *Rand, i int) c35In {
+	in := c35GenBase(r, i)
+	// every third case has units ending in zero bytes: of every type, at every
+	// position including the first keyframe unit and the last unit of the stream
+	if r.Chance(1, 3) {
+		num := Pick(r, []int{1, 1, 2, 4})
+		for a := range in.AUs {
+			au := append([]c34NAL{}, in.AUs[a]...)
+			for k := range au {
+				au[k] = c35TrailZeros(r, au[k], num, 4)
+			}
+			in.AUs[a] = au
+		}
+	}
+	in.Reuse = r.Bool()
+	return in
+}
+
+func c35GenBase(r *Rand, i int) c35In {
 	in := c35In{H265: r.Bool(), NoAgg: r.Chance(1, 3)}
 	in.MTU = Pick(r, []int{10, 12, 16, 24, 40, 64, 100, 200, 1200})
 	if r.Chance(1, 3) {
@@ -475,6 +552,9 @@ func c35Corpus() []c35In {
 	vps5, sps5, pps5 := lit(0x40, 0x01, 0x0c, 0x01), lit(0x42, 0x01, 0x01, 0x60), lit(0x44, 0x01, 0xc1, 0x73)
 	idr5, p5 := lit(0x26, 0x01, 0xaf, 0x06), lit(0x02, 0x01, 0xd0, 0x09)
 	au := func(ns ...c34NAL) []c34NAL { return ns }
+	tz := func(n c34NAL, k int) c34NAL {
+		return c34NAL{Four: true, Parts: append(append([]m1Pay{}, n.Parts...), m1Lit(make([]byte, k)))}
+	}
 	return []c35In{
 		// recognised streams
 		{MTU: 1200, AUs: [][]c34NAL{au(p), au(sps, pps, idr), au(p)}},
@@ -490,8 +570,22 @@ func c35Corpus() []c35In {
 		{H265: true, MTU: 24, AUs: [][]c34NAL{au(big(0x02, 1, 60)), au(p5), au(p5)}},       // end fragment of a TRAIL_R opens the gate
 		{H265: true, MTU: 24, AUs: [][]c34NAL{au(p5), au(big(0x4e, 1, 60)), au(p5)}},       // start fragment of an SEI (39) opens the gate
 		{H265: true, MTU: 200, AUs: [][]c34NAL{au(p5, vps5, sps5, pps5, idr5), au(p5)}},    // AP led by a non-keyframe unit
+		// units ending in 0x00, not the last and the last of the stream, as single
+		// NAL / aggregation / fragmentation packets: the reader must cut exactly the
+		// three zeros of the writer's 4-byte start code
+		{MTU: 1200, AUs: [][]c34NAL{au(sps, pps, tz(idr, 1)), au(tz(p, 1)), au(tz(p, 2)), au(p)}},
+		{MTU: 1200, NoAgg: true, Reuse: true, AUs: [][]c34NAL{au(tz(sps, 1)), au(tz(pps, 2)), au(tz(idr, 3)), au(tz(p, 5))}},
+		{MTU: 20, AUs: [][]c34NAL{au(sps, pps, tz(big(0x65, -1, 100), 1)), au(tz(big(0x41, -1, 50), 2)), au(tz(p, 1))}},
+		{H265: true, MTU: 1200, AUs: [][]c34NAL{au(vps5, sps5, pps5, tz(idr5, 1)), au(tz(p5, 1)), au(tz(p5, 2), p5)}},
+		{H265: true, MTU: 1200, NoAgg: true, Reuse: true, AUs: [][]c34NAL{au(tz(vps5, 1)), au(tz(sps5, 1)), au(tz(pps5, 2)), au(tz(idr5, 3)), au(tz(p5, 4))}},
+		{H265: true, MTU: 24, AUs: [][]c34NAL{au(vps5, sps5, pps5), au(tz(big(0x26, 1, 60), 1)), au(tz(big(0x02, 1, 60), 2)), au(tz(p5, 1))}},
 		// hand-made payloads: STAP-A with the SPS second
 		{Raw: []string{"419a0205", "780004419a0205000567420001f0", "419a0207"}},
+		// witness of the repaired defect: fragmented units fed out of one receive
+		// buffer (before the fix H265Depacketizer kept the fragments as sub-slices of
+		// the caller's payload: the rebuilt unit had the filler bytes in it)
+		{H265: true, MTU: 24, Reuse: true, AUs: [][]c34NAL{au(vps5, sps5, pps5), au(big(0x28, 1, 60)), au(big(0x02, 1, 60)), au(p5)}},
+		{MTU: 20, Reuse: true, AUs: [][]c34NAL{au(sps, pps), au(big(0x65, -1, 100)), au(big(0x41, -1, 50)), au(p)}},
 	}
 }
 
